@@ -101,7 +101,7 @@ def graph_cases(tier):
 
 
 # ------------------------------------------------------------ workbooks
-# edge forms: 0 absent, 1 direct, 2 IF(G1,X,0), 3 SUM(X:X) range, 4 name, 5 IFERROR(H1,X), 6 IFS(G1,X,TRUE,0), 7 IFNA(H1,X)
+# edge forms: 0 absent, 1 direct, 2 IF(G1,X,0), 3 SUM(X:X) range, 4 name, 5 IFERROR(H1,X), 6 IFS(G1,X,TRUE,0), 7 IFNA(H1,X), 8 IF(G2,X,0), 9 _xlfn.IFNA, 10 _xlfn.IFS
 def term(f, j):
     x = P + CELLS[j]
     if f == 1:
@@ -120,6 +120,10 @@ def term(f, j):
         return 'IFNA(%sH1,%s)' % (P, x)
     if f == 8:
         return 'IF(%sG2,%s,0)' % (P, x)       # a second, independent guard
+    if f == 9:
+        return '_xlfn.IFNA(%sH1,%s)' % (P, x)  # the spellings Excel stores in files
+    if f == 10:
+        return '_xlfn.IFS(%sG1,%s,TRUE,0)' % (P, x)
     raise ValueError(f)
 
 
@@ -173,7 +177,7 @@ def calc_file(mat, g, h, g2=None):
 
 
 def active(f, g, h, g2=None):
-    return f in (1, 3, 4) or (f in (2, 6) and g) or (f in (5, 7) and h) or (f == 8 and (g if g2 is None else g2))
+    return f in (1, 3, 4) or (f in (2, 6, 10) and g) or (f in (5, 7, 9) and h) or (f == 8 and (g if g2 is None else g2))
 
 
 def oracle(mat, g, h, g2=None):
@@ -185,7 +189,7 @@ def oracle(mat, g, h, g2=None):
       statement: the lazy value or the circular error are both accepted (returned as ('AMB', value))."""
     act = {i: [j for j, f in enumerate(mat[i]) if f and active(f, g, h, g2)] for i in range(3)}
     stat = {i: [j for j, f in enumerate(mat[i]) if f] for i in range(3)}
-    lazy = lambda i, j: mat[i][j] in (2, 5, 6, 7, 8)
+    lazy = lambda i, j: mat[i][j] in (2, 5, 6, 7, 8, 9, 10)
 
     def reach(graph, i):
         seen, todo = set(), list(graph[i])
@@ -425,7 +429,7 @@ def wb_cases(tier):
                 base[k] = 1
         for m in (1,) if q else (1, 2):
             for pos in itertools.combinations(offdiag, m):
-                for forms in itertools.product((3, 4, 5, 6, 7), repeat=m):
+                for forms in itertools.product((3, 4, 5, 6, 7, 9, 10), repeat=m):
                     flat = list(base)
                     for k, f in zip(pos, forms):
                         flat[k] = f
@@ -478,8 +482,75 @@ def run_seed(case):
     return res
 
 
+# ------------------------------------------------------------ a cycle that runs through a multi-cell range which also holds cells that are
+# not on the cycle, at the end of dependency chains of every length: those cells keep the value they have without the cyclic cells
+def rangecycle_dict(layout, n, with_cycle=True):
+    d = {P + 'Z%d' % n: 1}
+    for i in range(1, n):
+        d[P + 'Z%d' % i] = '=%sZ%d+1' % (P, i + 1)
+    chain = '=%sZ1+1' % P
+    if layout == 0:      # A3 = SUM(A1:A2), A1 = A3+1; A2 is the chain end inside the range
+        d.update({P + 'A2': chain, P + 'E1': '=%sA2+1' % P})
+        cyc = {P + 'A1': '=%sA3+1' % P, P + 'A3': '=SUM(%sA1:A2)' % P}
+    elif layout == 1:    # A1 = SUM(B1:B3)+1, B1 = A1*2; B2 chain end, B3 constant
+        d.update({P + 'B2': chain, P + 'B3': 4, P + 'E1': '=%sB2+%sB3' % (P, P)})
+        cyc = {P + 'A1': '=SUM(%sB1:B3)+1' % P, P + 'B1': '=%sA1*2' % P}
+    elif layout == 2:    # the range is read inside a selected IF branch
+        d.update({P + 'A3': chain, P + 'E1': '=%sA3*2' % P})
+        cyc = {P + 'A1': '=IF(TRUE,SUM(%sA2:A3),0)' % P, P + 'A2': '=%sA1+1' % P}
+    else:                # a 2-D block: cycle cell in one corner, chain ends in the others
+        d.update({P + 'B1': chain, P + 'A2': '=%sB1+1' % P, P + 'B2': 7, P + 'E1': '=%sA2+%sB2' % (P, P)})
+        cyc = {P + 'A1': '=%sC1+1' % P, P + 'C1': '=SUM(%sA1:B2)' % P}
+    if with_cycle:
+        d.update(cyc)
+    return d, sorted(k for k in cyc), sorted(k for k in d if k not in cyc)
+
+
+def guarded(fn):
+    old = signal.signal(signal.SIGPROF, _alarm)
+    signal.setitimer(signal.ITIMER_PROF, 60)     # CPU time, not wall time
+    try:
+        return fn()
+    finally:
+        signal.setitimer(signal.ITIMER_PROF, 0)
+        signal.signal(signal.SIGPROF, old)
+
+
+def rangecycle_cases(tier):
+    for layout in range(4):
+        for n in range(1, 9 if tier == 'quick' else 14):
+            yield ['rangecycle', layout, n]
+
+
+def run_rangecycle(case):
+    _, layout, n = case
+    import formulas, numpy as np
+    from xl.evalcell import classify, exc_name
+    fails = []
+    desc = dict(layout=layout, chain=n)
+    val = lambda sol, k: classify(np.asarray(sol[k].value, object).ravel()[0]) if k in sol else None
+    try:
+        d, cyc, plain = rangecycle_dict(layout, n)
+        sol = guarded(lambda: formulas.ExcelModel().from_dict(dict(d), assemble=False).finish(complete=False, circular=True).calculate())
+        d0, _, _ = rangecycle_dict(layout, n, False)
+        ref = formulas.ExcelModel().from_dict(dict(d0), assemble=False).finish(complete=False, circular=True).calculate()
+    except Exception as e:
+        return result(1, ['rangecycle:escape'], [Fail('escape', got='%s:%s' % (exc_name(e), str(e)[:80]), exp='terminates with a solution', **desc)])
+    for k in cyc:
+        v = val(sol, k)
+        if v is None or v[0] != 'e':
+            fails.append(Fail('cell-value', got='%s=%s' % (k[len(P):], v), exp='%s=CIRC' % k[len(P):], **desc))
+    for k in plain:
+        v, e = val(sol, k), val(ref, k)
+        if v != e:
+            fails.append(Fail('cell-value', got='%s=%s' % (k[len(P):], v), exp='%s=%s' % (k[len(P):], e), **desc))
+    return result(2, ['rangecycle:%d' % layout], fails[:4])
+
+
 def run_case(case):
     k = case[0]
+    if k == 'rangecycle':
+        return run_rangecycle(case)
     if k == 'graphs':
         return run_graphs(case)
     if k == 'wb':
@@ -500,6 +571,7 @@ def run(ctx):
     ctx.explore(run_case, graph_cases(ctx.tier), chunksize=1, label='digraphs')
     ctx.explore(run_case, wb_cases(ctx.tier), chunksize=32, label='workbooks')
     ctx.explore(run_case, all_perm_seam_cases(ctx.tier), chunksize=2, label='cycle_order_permutations')
+    ctx.explore(run_case, rangecycle_cases(ctx.tier), chunksize=1, label='cycles_through_ranges_with_bystanders')
     from mc.core import pmap
     seeds = list(range(8 if ctx.tier == 'quick' else 32))
     outs = {}
